@@ -2,7 +2,7 @@
    Statements over the store machine Store/Model.v, for EVERY schema that passes the boolean
    well-formedness check, every fuel and every history of transactions. *)
 From Coq Require Import List NArith Bool.
-From Storage Require Import Base.Bytes Store.Model Store.UniqueProofs Store.WfSchema.
+From Storage Require Import Base.Bytes Store.Model Store.UniqueProofs Store.WfSchema Store.SetIdxProofs Store.WfSetIdx.
 Import ListNotations.
 
 (* After any history of committed / rolled-back transactions (creates, full and field-restricted
@@ -43,3 +43,42 @@ Proof.
   exact (run_tx_inv sch s f H1 H2 H3 H4 H5 fuel st t).
 Qed.
 Print Assumptions unique_index_step.
+
+(* ---------------------------------------------------------------- set indexes *)
+(* After any history, the set index of root store s on set field f lists id i under key v exactly
+   when i is a present entity whose set f currently contains v: no entries for deleted entities,
+   no stale values, no missing entries.  [wf_setidx_b]: s is a root store, store names are unique,
+   parents are roots, among the stores with root s only s carries the set index on f (once), and f is
+   neither the back-reference set of an fk index targeting (a store with root) s nor a link field of it. *)
+Theorem set_index_mirrors : forall sch s f fuel (txs : list tx),
+  wf_setidx_b sch s f = true ->
+  let st := run_txs sch fuel st_empty txs in
+  forall v i, In i (match al_get v (sidx st s f) with Some l => l | None => [] end) <->
+              (present sch st s i = true /\ In v (get_set sch st s i f)).
+Proof.
+  intros sch s f fuel txs Hwf. destruct (wf_setidx_b_sound sch s f Hwf) as [H1 [H2 [H3 [H4 [H5 [H6 H7]]]]]].
+  exact (set_index_mirrors_lemma sch s f H1 H2 H3 H4 H5 H6 H7 fuel txs).
+Qed.
+Print Assumptions set_index_mirrors.
+
+(* no empty index keys are left behind: every key present in the index holds a non-empty id list *)
+Theorem no_empty_index_keys : forall sch s f fuel (txs : list tx),
+  wf_setidx_b sch s f = true ->
+  let st := run_txs sch fuel st_empty txs in
+  forall v l, al_get v (sidx st s f) = Some l -> l <> [].
+Proof.
+  intros sch s f fuel txs Hwf. destruct (wf_setidx_b_sound sch s f Hwf) as [H1 [H2 [H3 [H4 [H5 [H6 H7]]]]]].
+  exact (no_empty_index_keys_lemma sch s f H1 H2 H3 H4 H5 H6 H7 fuel txs).
+Qed.
+Print Assumptions no_empty_index_keys.
+
+(* the set-index invariant (mirror + no empty keys) is preserved by every single transaction from
+   ANY state satisfying it *)
+Theorem set_index_step : forall sch s f fuel st (t : tx),
+  wf_setidx_b sch s f = true ->
+  SInv sch s f st -> SInv sch s f (match run_tx sch fuel st t with (_, _, st', _) => st' end).
+Proof.
+  intros sch s f fuel st t Hwf. destruct (wf_setidx_b_sound sch s f Hwf) as [H1 [H2 [H3 [H4 [H5 [H6 H7]]]]]].
+  exact (run_tx_sinv sch s f H1 H2 H3 H4 H5 H6 H7 fuel st t).
+Qed.
+Print Assumptions set_index_step.
